@@ -674,7 +674,7 @@ func c05(c *Ctx) {
 	})
 
 	c.Rule("C05.R5", "gauge ties: within a datagram (equal timestamps) the later line wins, and lines are folded in order", 3, func(r *Rule) {
-		rg := w.Func("", "(*MetricMap).receiveGauge")
+		rg, _ := w.FuncOrHost("", "(*MetricMap).receiveGauge")
 		if rg == nil {
 			r.Unresolved("(*MetricMap).receiveGauge")
 			return
